@@ -1,4 +1,5 @@
 import UtpVerif.Model.Mtu
+import UtpVerif.Gen.Fns
 /-!
 # C14 — path-MTU discovery is safe and converges (segment-size component)
 
@@ -154,5 +155,12 @@ theorem default_v4_converges_in_10 (P : Nat) (hP1 : 528 ≤ P) (hP2 : P ≤ 1452
 -- Non-vacuity: the invariant is met by the default state and the path oracle really moves it.
 example : Inv 1452 (new true 1500 3) := by unfold Inv; decide
 example : (outcomes 1000 10 (new true 1500 3)).minSs = 1000 := by decide
+
+/-! ### Tie 1b: the hand-written model of this function equals the definition regenerated from the Rust source
+
+`UtpVerif.Gen.Fns` is rewritten by `tools/translate_fns.py` from /repo's current source on every run; the theorems
+of this file are about the model definition, and the equality below re-attaches them to what the code says now. -/
+
+theorem generated_next_probe (s : SegSizes) : UtpVerif.Gen.Fns.nextProbe s.minSs s.maxSs = s.nextProbe := rfl
 
 end UtpVerif.Props.C14
